@@ -1,3 +1,10 @@
+/-
+Helper lemmas for C09 (Optional part): the per-wrapper invariant `OptOk`/`Inv`, its preservation
+by every operation (`step_inv`), the abstraction `abs` to `Option`, the value-level reference
+semantics `Ref.step`, the commutation `step_abs`, the frame lemma, end-of-history destruction, and
+the layout arithmetic.  The proofs evaluate each member function on the three shapes a well-formed
+slot can have (no object / empty / engaged) for `this` and `other`, including `this == other`.
+-/
 import RkVerif.Model.C09
 set_option linter.unusedSectionVars false
 namespace RkVerif.C09
